@@ -174,3 +174,9 @@ pub fn spec_iso_week(y: i32, m: u32, d: u32) -> i64 {
 pub fn bind_days_to_date(d: i32, y: i32, m: u32, dd: u32) {
     assume(crate::util::date::convert::days_to_date(d) == (y, m, dd));
 }
+
+/// contract of date_to_days (C01 obligation 2)
+pub fn contract_date_to_days(y: i32, m: u32, d: u32, is_ok: bool, k: i32) -> bool {
+    let ok = spec_valid(y, m, d) && spec_in_range(y, m, d);
+    is_ok == ok && (!ok || k as i64 == spec_rd(y, m, d))
+}
